@@ -34,3 +34,86 @@ pub uninterp spec fn spec_dalek_bytes(pk: DalekPublicKey) -> Seq<u8>;
 pub open spec fn spec_proof_msg(amount: u64, excess: Commitment, sender: DalekPublicKey) -> Seq<u8> {
     spec_be64(amount) + excess.0@ + spec_dalek_bytes(sender)
 }
+
+// ---- grin_core transaction objects used by Slate signing/finalization (opaque, functional)
+pub struct TxKernelFull { pub features: KernelFeatures, pub excess: Commitment, pub excess_sig: Signature }
+impl Clone for TxKernelFull { #[verifier::external_body] fn clone(&self) -> (r: Self) ensures r == *self { unimplemented!() } }
+impl Copy for TxKernelFull {}
+pub enum KernelFeatures {
+    Plain { fee: FeeFields },
+    Coinbase,
+    HeightLocked { fee: FeeFields, lock_height: u64 },
+    NoRecentDuplicate { fee: FeeFields, relative_height: NRDRelativeHeight },
+}
+impl Clone for KernelFeatures { #[verifier::external_body] fn clone(&self) -> (r: Self) ensures r == *self { unimplemented!() } }
+impl Copy for KernelFeatures {}
+pub struct NRDRelativeHeight { pub h: u16 }
+impl Clone for NRDRelativeHeight { #[verifier::external_body] fn clone(&self) -> (r: Self) ensures r == *self { unimplemented!() } }
+impl Copy for NRDRelativeHeight {}
+impl NRDRelativeHeight {
+    #[verifier::external_body]
+    pub fn new(height: u64) -> (r: Result<NRDRelativeHeight, transaction::Error>) { unimplemented!() }
+}
+pub enum Weighting { AsTransaction, AsLimitedTransaction(u64), AsBlock, NoLimit }
+// ghost views of a transaction: its kernels and the numbers of inputs / outputs, its total fee
+pub uninterp spec fn tx_kernels(t: Transaction) -> Seq<TxKernelFull>;
+pub uninterp spec fn tx_num_inputs(t: Transaction) -> nat;
+pub uninterp spec fn tx_num_outputs(t: Transaction) -> nat;
+pub uninterp spec fn tx_fee_total(t: Transaction) -> u64;
+pub uninterp spec fn kernel_verifies(k: TxKernelFull) -> bool;         // kernel signature valid for its excess and message
+pub uninterp spec fn tx_valid(t: Transaction) -> bool;                 // Transaction::validate(Weighting::AsTransaction)
+pub uninterp spec fn spec_replace_kernel(t: Transaction, k: TxKernelFull) -> Transaction;
+#[verifier::external_body]
+pub proof fn axiom_replace_kernel(t: Transaction, k: TxKernelFull)
+    ensures tx_kernels(spec_replace_kernel(t, k)) == seq![k],
+        tx_num_inputs(spec_replace_kernel(t, k)) == tx_num_inputs(t), tx_num_outputs(spec_replace_kernel(t, k)) == tx_num_outputs(t),
+        tx_parts(spec_replace_kernel(t, k)) == tx_parts(t)
+{ }
+impl Clone for Transaction { #[verifier::external_body] fn clone(&self) -> (r: Self) ensures r == *self { unimplemented!() } }
+impl Transaction {
+    #[verifier::external_body]
+    pub fn kernels(&self) -> (r: &[TxKernelFull]) ensures r@ == tx_kernels(*self) { unimplemented!() }
+    #[verifier::external_body]
+    pub fn inputs(&self) -> (r: TxIo) ensures r.n == tx_num_inputs(*self) { unimplemented!() }
+    #[verifier::external_body]
+    pub fn outputs(&self) -> (r: TxIo) ensures r.n == tx_num_outputs(*self) { unimplemented!() }
+    #[verifier::external_body]
+    pub fn fee(&self) -> (r: u64) ensures r == tx_fee_total(*self) { unimplemented!() }
+    #[verifier::external_body]
+    pub fn replace_kernel(self, k: TxKernelFull) -> (r: Transaction) ensures r == spec_replace_kernel(self, k) { unimplemented!() }
+    #[verifier::external_body]
+    pub fn validate(&self, w: Weighting) -> (r: Result<(), transaction::Error>) ensures (r is Ok) == tx_valid(*self) { unimplemented!() }
+}
+pub struct TxIo { pub n: usize }
+impl TxIo { pub fn len(&self) -> (r: usize) ensures r == self.n { self.n } }
+impl TxKernelFull {
+    #[verifier::external_body]
+    pub fn verify(&self) -> (r: Result<(), transaction::Error>) ensures (r is Ok) == kernel_verifies(*self) { unimplemented!() }
+    #[verifier::external_body]
+    pub fn with_features(f: KernelFeatures) -> (r: TxKernelFull) ensures r.features == f { unimplemented!() }
+}
+
+// ---- aggsig (grin_core::libtx::aggsig) and key combination
+impl PublicKey {
+    #[verifier::external_body]
+    pub fn from_combination(secp: &Secp256k1, keys: Vec<&PublicKey>) -> (r: Result<PublicKey, secp::Error>)
+        ensures r matches Ok(k) ==> k == spec_pubkey_sum(keys@.map(|i: int, p: &PublicKey| *p)) { unimplemented!() }
+}
+// (slate.rs calls these as `aggsig::f`; the sidecar drops the module prefix, rule M1)
+#[verifier::external_body]
+pub fn verify_partial_sig(secp: &Secp256k1, sig: &Signature, pub_nonce_sum: &PublicKey, pubkey: &PublicKey, pubkey_sum: Option<&PublicKey>, msg: &SecpMessage) -> (r: Result<(), libtx::Error>)
+    ensures (r is Ok) == (pubkey_sum matches Some(bs) && part_sig_ok(*sig, *pub_nonce_sum, *pubkey, *bs, *msg)) { unimplemented!() }
+#[verifier::external_body]
+pub fn calculate_partial_sig(secp: &Secp256k1, sec_key: &SecretKey, sec_nonce: &SecretKey, nonce_sum: &PublicKey, pubkey_sum: Option<&PublicKey>, msg: &SecpMessage) -> (r: Result<Signature, libtx::Error>)
+    ensures r matches Ok(s) ==> (pubkey_sum matches Some(bs) && s == spec_partial_sig(*sec_key, *sec_nonce, *nonce_sum, *bs, *msg)) { unimplemented!() }
+#[verifier::external_body]
+pub fn add_signatures(secp: &Secp256k1, part_sigs: Vec<&Signature>, nonce_sum: &PublicKey) -> (r: Result<Signature, libtx::Error>)
+    ensures r matches Ok(s) ==> s == spec_add_sigs(part_sigs@.map(|i: int, p: &Signature| *p), *nonce_sum) { unimplemented!() }
+#[verifier::external_body]
+pub fn verify_completed_sig(secp: &Secp256k1, sig: &Signature, pubkey: &PublicKey, pubkey_sum: Option<&PublicKey>, msg: &SecpMessage) -> (r: Result<(), libtx::Error>)
+    ensures (r is Ok) == completed_sig_ok(*sig, *pubkey, *msg) { unimplemented!() }
+pub uninterp spec fn spec_kernel_msg(f: KernelFeatures) -> SecpMessage;
+impl KernelFeatures {
+    #[verifier::external_body]
+    pub fn kernel_sig_msg(&self) -> (r: Result<SecpMessage, transaction::Error>) ensures r matches Ok(m) ==> m == spec_kernel_msg(*self) { unimplemented!() }
+}
